@@ -185,7 +185,9 @@ def gen_case(seed, idx, tier="quick"):
             "read_faults": rng.choice(MODES) if rng.random() < cfg["fault_p"] * 1.5 else None,
             # earlier activity on the SAME live objects: they were exported in the other flavour (other translation table)
             # and / or asked for their protein under both tables before the export under test
-            "warm_other": rng.choice([None, None, "export", "translate", "both"])}
+            "warm_other": rng.choice([None, None, "export", "translate", "both"]),
+            # what the writer is given: an open (simulated) handle, or a path it opens itself
+            "target": rng.choice(["handle"] * 6 + ["str_path", "pathlib"])}
 
 
 # ---------------------------------------------------------------------------------------------------------------
@@ -240,15 +242,31 @@ def h_export(req):
             out["prior_error"] = type(e).__name__
     w = simdisk.SimWriter()
     try:
-        _export(colls, case, w)
-        out["t1"] = w.getvalue()
-        out["W"] = w.nwrites
+        if case.get("target") in ("str_path", "pathlib"):
+            # the documented alternative to an open handle: the writer opens the file itself (no fault injection possible
+            # on this leg; the file lives under /dev/shm for the duration of the call)
+            import pathlib
+
+            path = f"/dev/shm/bcsim-c12-{os.getpid()}.gbk"
+            try:
+                _export(colls, case, path if case["target"] == "str_path" else pathlib.Path(path))
+                with open(path) as fh:
+                    out["t1"] = fh.read()
+            finally:
+                if os.path.exists(path):
+                    os.unlink(path)
+            out["W"] = 0
+            out["target"] = case["target"]
+        else:
+            _export(colls, case, w)
+            out["t1"] = w.getvalue()
+            out["W"] = w.nwrites
     except Exception as e:
         out["t1_error"] = type(e).__name__
         return out
     if req.get("mode") == "plain":
         return out
-    if case.get("faults"):
+    if case.get("faults") and not out.get("target"):
         W = w.nwrites
         ks = list(range(1, W + 1))
         if W > 500:
@@ -799,6 +817,7 @@ def run_case(case):
                 fs.append({"inv": "read_fault", "what": "returned_other_result_after_read_error", "detail": f"k={rec['k']}", "flavor": case["flavor"]})
     stats["stale_exporter"] += int("prior_text" in a)
     stats["warm_other"] += int(bool(a.get("warm_other")))
+    stats["path_target"] += int(bool(a.get("target")))
     stats["stale_importer"] += int(bool(imp.get("prior_parsed")))
     stats["hashseed_differs"] += int(case["hs_a"] != case["hs_b"])
     stats["parses"] += 3
@@ -1003,6 +1022,7 @@ def evidence(agg, tier, seed, wall, batches):
             "short_read(reader chunking 1/16/256 chars)": st["parses"], "hashseed(importer differs)": st["hashseed_differs"],
             "stale_exporter(exported a strain twin earlier in the same process)": st["stale_exporter"],
             "same_objects_used_under_the_other_flavour_or_table_before_the_export": st["warm_other"],
+            "writer_given_a_path_instead_of_a_handle": st["path_target"],
             "stale_importer(parsed another file earlier in the same process)": st["stale_importer"],
             "files_whose_text_differs_between_hash_seeds(set order of qualifiers)": st["files_differing_in_text_across_hashseeds(qualifier order)"],
             "interleaved_consumers(episodes where 2-4 lazy parsers were stepped by the seeded scheduler)": st["sched_episodes"],
